@@ -12,6 +12,14 @@ SlotFn(r) == [v \in {r.pool[j][1] : j \in DOMAIN r.pool} |-> Lookup([j \in DOMAI
 RegFn(r, pairs) == [k \in Keys(r) |-> Lookup(pairs, k, <<>>)]
 AsSets(reg) == [k \in DOMAIN reg |-> SeqToSet(reg[k])]
 
+GmBad(r, post, SlotOf) ==
+  \E j \in DOMAIN r.gm :
+     LET g == r.gm[j]                       \* <<key, slot, kind, var>>
+         occ == Occupant(post, SlotOf, g[1], g[2]) IN
+     IF occ # {} THEN ~(g[3] = "exact" /\ g[4] \in occ)
+     ELSE IF post[g[1]] # <<>> THEN ~((g[3] = "interp" /\ g[4] \in SeqToSet(post[g[1]])) \/ g[3] = "undefined-shift")
+     ELSE FALSE
+
 VStep(r) ==
   LET SlotOf == SlotFn(r)
       pre == RegFn(r, r.pre)
@@ -21,16 +29,21 @@ VStep(r) ==
      ELSE IF e.refused # (r.out.k = "refused") THEN (IF e.refused THEN "accepted-into-occupied-slot" ELSE "refused-free-slot")
      ELSE IF ~OneVarPerSlot(post, SlotOf) THEN "two-variables-in-one-slot"
      ELSE IF AsSets(post) # AsSets(e.reg) THEN "registry"
-     ELSE IF \E j \in DOMAIN r.gm :
-               LET g == r.gm[j]                       \* <<key, slot, kind, var>>
-                   occ == Occupant(post, SlotOf, g[1], g[2]) IN
-               IF occ # {} THEN ~(g[3] = "exact" /\ g[4] \in occ)
-               ELSE IF post[g[1]] # <<>> THEN ~((g[3] = "interp" /\ g[4] \in SeqToSet(post[g[1]])) \/ g[3] = "undefined-shift")
-               ELSE FALSE
-          THEN "get-metric"
+     ELSE IF GmBad(r, post, SlotOf) THEN "get-metric"
      ELSE "ok"
 
-Verdict(r) == IF r.ev = "SetMetrics" THEN VStep(r) ELSE "unknown-event"
+\* a call that names nothing registrable (axes the grid lacks, or only a variable the dataset lacks) registers
+\* nothing: it is refused with an exception and every slot holds what it held
+VIll(r) ==
+  LET SlotOf == SlotFn(r)
+      pre == RegFn(r, r.pre)
+      post == RegFn(r, r.post)
+  IN IF r.out.k = "ok" THEN "unregistrable-call-accepted"
+     ELSE IF AsSets(post) # AsSets(pre) THEN "refused-call-changed-the-registry"
+     ELSE IF GmBad(r, post, SlotOf) THEN "get-metric"
+     ELSE "ok"
+
+Verdict(r) == CASE r.ev = "SetMetrics" -> VStep(r) [] r.ev = "SetMetricsIll" -> VIll(r) [] OTHER -> "unknown-event"
 Init == i = 1
 Next == /\ i <= Len(Tr)
         /\ LET v == Verdict(Tr[i]) IN IF v = "ok" THEN TRUE ELSE PrintT(<<"V", Tr[i].id, v>>)
